@@ -144,7 +144,7 @@ def run(ck: Check):
     summ(ck, *QUICK_SUMM, with_corpus=True)
     e2e(ck, QUICK_E2E, "debug")
     # the shipped binary (fixed scratch arenas) around the statement limit: D-20 witness family
-    c18cli.run(ck, names=("incr", "expr") if ck.tier == "quick" else tuple(c18cli.FILLERS))
+    c18cli.run(ck, names=("incr", "bind") if ck.tier == "quick" else tuple(c18cli.FILLERS))
     scc(ck, corpus_scc() + QUICK_SCC, QUICK_SCC_RANDOM, label="limits-scc")
     if ck.tier == "thorough":
         ck.seed += 77
